@@ -171,6 +171,28 @@ func (ex *Exec) mergeStates(ins []edgeState) *State {
 		}
 		out.cells[k] = ex.mergeValues(vals, guards, k.Comment)
 	}
+	// captured variables of a function literal verified as a unit (they were dropped at joins before round 7: a clause
+	// that named one after an if statement could not be evaluated)
+	fkeys := map[*ssa.FreeVar]bool{}
+	for _, e := range ins {
+		for k := range e.st.free {
+			fkeys[k] = true
+		}
+	}
+	for k := range fkeys {
+		var vals []Value
+		var guards []string
+		for _, e := range ins {
+			if v, ok := e.st.free[k]; ok {
+				vals = append(vals, v)
+				guards = append(guards, e.st.pc)
+			}
+		}
+		if out.free == nil {
+			out.free = map[*ssa.FreeVar]Value{}
+		}
+		out.free[k] = ex.mergeValues(vals, guards, k.Name())
+	}
 	mergeMap := func(get func(*State) map[string]string, set map[string]string, heapLike bool) {
 		ks := map[string]bool{}
 		for _, e := range ins {
